@@ -198,3 +198,7 @@ mod tests {
         Ok(())
     }
 }
+
+#[cfg(kani)]
+#[path = "/verif/kani/security_proofs.rs"]
+mod verif_kani;
